@@ -287,7 +287,7 @@ def first_zero_grain(snap):
     return next((k for k, v in enumerate(snap["num"]) if v == 0), None)
 
 
-def run_controls(chk, real_fn, d, entries):
+def run_controls(chk, d, entries):
     """Every clause of the trace spec must fire on a planted defect; a different correct sampler
     must be accepted."""
     lines, expect = [], {}
@@ -299,10 +299,12 @@ def run_controls(chk, real_fn, d, entries):
         lines += ls
         expect[tid] = (f"sampler:{kind}", clauses)
         tid += 1
-    # hand-corrupted copies of a real, accepted trace
-    sc = dict(N=1, M=5, cls="zeros", nreq=10000, rep=0, salt=78)
-    o, f, nums, D, seed = build_scenario(sc)
-    good, _ = record_call(real_fn, o, f, sc["nreq"], seed, 0, dict(cls=sc["cls"]), nums, D)
+    # hand-corrupted copies of a synthetic trace whose counts sit exactly on their expectation
+    # (independent of the implementation, so a broken sampler cannot disable the controls)
+    good = [
+        dict(tid=0, ev="call", os=[1, 5, 3, 3], fs=[1, 5], nreq=12000, exc="None", osh=[1, 12000, 3, 3], vsh=[1, 12000], repro=True, stat=True),
+        dict(tid=0, ev="snap", i=1, D=12, n=12000, num=[0, 3, 0, 4, 5], cnt=[0, 3000, 0, 4000, 5000], unp=0),
+    ]
 
     def corrupt(name, clauses, mutate):
         nonlocal tid
@@ -314,7 +316,7 @@ def run_controls(chk, real_fn, d, entries):
         expect[tid] = (name, clauses)
         tid += 1
 
-    corrupt("untouched-real-trace", (), lambda ls: None)
+    corrupt("untouched-synthetic-trace", (), lambda ls: None)
 
     def move_counts(ls):  # totals preserved: only the distribution clause can see it
         s = ls[1]
@@ -339,8 +341,8 @@ def run_controls(chk, real_fn, d, entries):
         s["unp"] += 1
 
     corrupt("one-pair-not-in-input", ("output-pair-not-an-input-pair",), foreign_pair)
-    corrupt("orientation-shape-wrong", ("orientation-output-shape",), lambda ls: ls[0].__setitem__("osh", [1, 10000, 3]))
-    corrupt("volume-shape-wrong", ("volume-output-shape",), lambda ls: ls[0].__setitem__("vsh", [10000, 1]))
+    corrupt("orientation-shape-wrong", ("orientation-output-shape",), lambda ls: ls[0].__setitem__("osh", [1, 12000, 3]))
+    corrupt("volume-shape-wrong", ("volume-output-shape",), lambda ls: ls[0].__setitem__("vsh", [12000, 1]))
     corrupt("not-reproducible", ("not-reproducible-for-equal-seeds",), lambda ls: ls[0].__setitem__("repro", False))
     corrupt("valid-call-raised", ("valid-input-raised",), lambda ls: (ls[0].update(exc="ValueError", osh=[], vsh=[], stat=False), ls.__delitem__(1)))
     corrupt("snapshot-line-dropped", ("trace-missing-snapshot-lines",), lambda ls: ls.__delitem__(1))
@@ -354,7 +356,7 @@ def run_controls(chk, real_fn, d, entries):
     expect[tid] = ("malformed-other-exception", ("wrong-exception-class",))
     tid += 1
     rejects, res = validate(lines, d, "controls")
-    chk.add_tlc("ResampleTrace(controls)", res, f"{len(expect)} planted traces ({len(lines)} lines): mutant samplers, corrupted copies of a real trace, one alternative correct sampler")
+    chk.add_tlc("ResampleTrace(controls)", res, f"{len(expect)} planted traces ({len(lines)} lines): mutant samplers, corrupted copies of a synthetic exact-expectation trace, one alternative correct sampler")
     by_tid = {}
     for t, _, clause, _ in rejects:
         by_tid.setdefault(t, set()).add(clause)
@@ -515,7 +517,7 @@ def main(tier):
                 else:
                     chk.skip("6-sigma-excursion-not-confirmed-on-fresh-seeds")
         # ---- 6. negative / positive controls of the trace specification
-        run_controls(chk, fn, d, entries)
+        run_controls(chk, d, entries)
     return chk.finish(
         rule="table: every (orientation shape, fraction shape, n_samples) entry of the TLC-enumerated shape table, replayed as ndarray and as nested lists, distinct by tuple; "
         "scenarios: N in {1,3} x M in {1,2,5,50} x volume class (uniform, zeros, duplicates, dominant, random simplex; rational k/D) x n_samples in {1, default, M, 1e4[, 137, 1e6]} x seeded repetitions, distinct by that tuple",
